@@ -213,6 +213,9 @@ LoopBoxes:
 				if ok, parsed := traf.ContainsSencBox(); ok && !parsed {
 					isEncrypted := true
 					defaultIVSize := byte(0) // Should get this from tenc in sinf
+					if traf.Tfhd == nil {
+						return nil, fmt.Errorf("traf box without tfhd box")
+					}
 					if f.Moov != nil {
 						trackID := traf.Tfhd.TrackID
 						isEncrypted = f.Moov.IsEncrypted(trackID)
@@ -254,10 +257,12 @@ func (f *File) AddChild(child Box, boxStartPos uint64) {
 		f.Ftyp = box
 	case *MoovBox:
 		f.Moov = box
-		if len(f.Moov.Trak.Mdia.Minf.Stbl.Stts.SampleCount) == 0 {
+		if moovHasNoSamples(f.Moov) {
 			f.isFragmented = true
 			f.Init = NewMP4Init()
-			f.Init.AddChild(f.Ftyp)
+			if f.Ftyp != nil {
+				f.Init.AddChild(f.Ftyp)
+			}
 			f.Init.AddChild(f.Moov)
 		}
 	case *SidxBox:
@@ -316,6 +321,17 @@ func (f *File) AddChild(child Box, boxStartPos uint64) {
 		f.Mfra = box
 	}
 	f.Children = append(f.Children, child)
+}
+
+// moovHasNoSamples tells if the first track has an empty stts box, which signals the moov box of a fragmented file.
+// A moov box without a complete first track is judged by the presence of an mvex box.
+func moovHasNoSamples(moov *MoovBox) bool {
+	trak := moov.Trak
+	if trak == nil || trak.Mdia == nil || trak.Mdia.Minf == nil || trak.Mdia.Minf.Stbl == nil ||
+		trak.Mdia.Minf.Stbl.Stts == nil {
+		return moov.Mvex != nil
+	}
+	return len(trak.Mdia.Minf.Stbl.Stts.SampleCount) == 0
 }
 
 // startSegmentIfNeeded starts a new segment if there is none or if position match with sidx of tfra.
